@@ -14,7 +14,7 @@ Dir. B:  Trace_Dom: after EVERY step the snapshot of ALL live trees must equal t
 """
 import random
 
-from harness import domdriver, domgen, fgen, pools
+from harness import domdriver, domgen, fgen, pools, rdriver
 from harness.abstraction import Catalog
 from harness.checks import _dcommon, _rcommon
 
@@ -83,10 +83,12 @@ def run(run, replay=None):
         if rng.random() < 0.35:
             # a live tree that comes from a FOREIGN file (optional options omitted, other option order, ...)
             data, _info = fgen.build_file(rng.choice(paths), rng, main_enc=rng.choice(['utf-8', 'utf-16', 'latin-1']))
-            e = h.parse(data)
-            if e['status'] == 'ok':
-                h.ser(len(h.trees))
-                h.repr(len(h.trees))
+            # only files the library reads and loads (whether it SHOULD is C03's / C06's subject, not C18's)
+            if rdriver.read_bytes(data, abstract=False)[1] == 'done' and rdriver.dom_load(data)['end'] == 'ok':
+                e = h.parse(data)
+                if e['status'] == 'ok':
+                    h.ser(len(h.trees))
+                    h.repr(len(h.trees))
         for _ in range(rng.randint(6, 14) if quick else rng.randint(8, 24)):
             random_step(h, rng)
         traces.append(h.trace(n, CHK))
